@@ -157,9 +157,11 @@ pub fn gen_c02(rng: &mut Rng, thorough: bool) -> Vec<Tagged> {
         (Sh::Sp(1, 37, 37), Simple::Conv { filters: 1, kernel: (2, 3), stride: (1, 2), padding: (1, 0), dilation: (1, 1), act: Act::Linear, dropout: None }),
         (Sh::Sp(1, 37, 37), Simple::Maxpool { kernel: (2, 2), stride: (1, 1) }),
         (Sh::Sp(1, 36, 31), Simple::Deconv { filters: 1, kernel: (2, 2), stride: (1, 1), padding: (0, 0), act: Act::Linear, dropout: None }),
-        (Sh::Sp(1, 260, 257), Simple::Conv { filters: 1, kernel: (1, 1), stride: (1, 1), padding: (0, 0), dilation: (1, 1), act: Act::Linear, dropout: None }),
+        // (the model's convolution indexes nested lists: its cost grows with the square of the extent, so the
+        //  convolution / deconvolution stay below 5 000 cells; the max-pool walk is linear)
+        (Sh::Sp(1, 70, 67), Simple::Conv { filters: 1, kernel: (1, 1), stride: (1, 1), padding: (0, 0), dilation: (1, 1), act: Act::Linear, dropout: None }),
         (Sh::Sp(1, 260, 257), Simple::Maxpool { kernel: (2, 1), stride: (2, 1) }),
-        (Sh::Sp(1, 257, 260), Simple::Deconv { filters: 1, kernel: (1, 1), stride: (1, 1), padding: (0, 0), act: Act::Linear, dropout: None }),
+        (Sh::Sp(1, 67, 70), Simple::Deconv { filters: 1, kernel: (1, 1), stride: (1, 1), padding: (0, 0), act: Act::Linear, dropout: None }),
     ];
     for (k, (inp, l)) in huge.into_iter().enumerate() {
         if k >= 5 && !(thorough || k == 6) {
